@@ -67,4 +67,20 @@ theorem task_solve_eq (T : TaskSem) (x : List Raw) : Src.task_solve T x = (T.dec
   unfold Src.task_solve
   cases T.decl.correctSolution x <;> rfl
 
+/-- the documented fitness of a user-visible cost: `1 / (c + 1)` for `c ≥ 0`, `1 + |c|` otherwise (a NaN cost is not `≥ 0`: second branch); the rounding of
+`+`, `/`, `abs` is a parameter -/
+def fitFormula (fl : Py.FloatOps) (c : Num) : Num :=
+  if Num.le (intNum 0) c then fl.div (intNum 1) (fl.add c (intNum 1)) else fl.add (intNum 1) (fl.abs c)
+
+/-- **`calculate_fitness(cost, minmax)`** as the source reads now: the documented formula of the *user-visible* cost — the internal cost for a
+minimisation task, its negation for a maximisation task -/
+theorem calculate_fitness_eq (fl : Py.FloatOps) (c : Num) (d : Dir) : Src.calculate_fitness fl c d = .ok (fitFormula fl (signOut d c)) := by
+  unfold Src.calculate_fitness fitFormula
+  cases d <;> rfl
+
+/-- hence, for a task whose fitness function is the documented formula, the `calculate_fitness` the model's `mkAgent` is stated with (`fitOf`) is the source's -/
+theorem fitOf_is_source (T : TaskSem) (fl : Py.FloatOps) (h : T.fit = fitFormula fl) (c : Num) (d : Dir) :
+    Src.calculate_fitness fl c d = .ok (fitOf T c d) := by
+  rw [calculate_fitness_eq, fitOf, h]
+
 end R02
